@@ -34,6 +34,11 @@ def pctr_parts(quick):
                       (2 * bs, 1), (3 * bs + 3, bs - 1), (4 * bs + 1, bs), (5, bs - 5), (5, bs - 4), (2, bs - 1)]
         out += ["pctr_%s_%d_%d" % (c, sz, off) for sz, off in cfgs]
     return out
+# the two layers composed (WholeCompose.v): generic CTR encryption with the call run by the block function's own code
+def comp_parts(quick):
+    if quick: return ["comp_c128_19_5_40", "comp_c64_9_8_32"]
+    return ["comp_c128_%d_%d_%d" % (sz, off, R) for sz, off in ((19, 5), (17, 16), (1, 0), (33, 16)) for R in (40, 48, 56)] + \
+           ["comp_c64_%d_%d_%d" % (sz, off, R) for sz, off in ((9, 8), (19, 3), (1, 0), (17, 8)) for R in (32, 36, 40)]
 # parallel ECB functionally, both callees as procedure calls (WholePar.v): zero blocks, fewer than a group, whole groups, groups
 # plus left-over blocks, per back end and direction
 def ppar_parts(quick):
@@ -144,7 +149,7 @@ def one(repo_copy, gen, cfg, part):
     if rc == 0 and "Axioms:" not in out:
         r.update(ok=True, discharged=r["obligations"]); return r
     # which obligation fails
-    m = re.search(r'File "[^"]*", line (\d+)', out + err)
+    m = re.search(r'File "[^"]*", line (\d+), characters [\d-]+:\s*\n\s*Error', out + err) or re.search(r'File "[^"]*", line (\d+)', out + err)
     failed = None
     if m:
         ln = int(m.group(1)); lines = open(gv).read().splitlines()
